@@ -116,6 +116,8 @@ struct Scenario {
     ntracks: usize,
     /// consume the two result streams through into_iter() instead of all()
     iter: bool,
+    /// the result half is dropped unread right after the query was dispatched; only the error half is read
+    drop_ok: bool,
     /// an earlier query on the same store: 0 = none, 1 = abandoned (both streams dropped unread),
     /// 2 = results read, error stream dropped unread, 3 = dispatched and NOT read yet: still in flight while the
     /// query under test runs, read afterwards
@@ -164,7 +166,10 @@ fn run_scenario(sc: &Scenario) -> Obs {
         _ => store.owned_track_distances(&[2, 4, 1], 0, sc.only_baked),
     };
     // errors first (as the trackers do), then the results; either through all() or through the iterators
-    let (oks, errs) = if sc.iter {
+    let (oks, errs) = if sc.drop_ok {
+        drop(ok);
+        (vec![], err.all())
+    } else if sc.iter {
         let e: Vec<_> = err.into_iter().collect();
         let o: Vec<_> = ok.into_iter().collect();
         (o, e)
@@ -224,7 +229,7 @@ fn expected(sc: &Scenario) -> (Vec<Item>, usize, Vec<TrackDump>) {
 
 pub fn run(tier: Tier) -> Report {
     let rep = Report::new("C10", tier);
-    rep.set_rule("scenarios = store contents (4-6 tracks: mixed compatibility class, status Pending / Ready / Wasted, 0..2 observations in classes {0,1}, a pair beyond the metric cut-off) x candidate batch {one foreign, two foreign, foreign with a stored id, owned [1], owned [1,2], owned [2,4,1]} x only_baked x result streams consumed through all() / into_iter() x {fresh store, after an earlier query that was abandoned unread, after one whose error stream was dropped unread, while an earlier foreign query is still in flight (dispatched before, read after: it must deliver its complete result)} x shard count; for each scenario every schedule of the store workers and the caller at command granularity within the preemption bound (window = the query until both result streams are drained); oracle: result multiset = reference cartesian product, error count, store unchanged, identical across schedules. states = executions (schedules), transitions = decision points.");
+    rep.set_rule("scenarios = store contents (4-6 tracks: mixed compatibility class, status Pending / Ready / Wasted, 0..2 observations in classes {0,1}, a pair beyond the metric cut-off) x candidate batch {one foreign, two foreign, foreign with a stored id, owned [1], owned [1,2], owned [2,4,1]} x only_baked x result streams consumed through all() / into_iter() x {fresh store, after an earlier query that was abandoned unread, after one whose error stream was dropped unread, while an earlier foreign query is still in flight (dispatched before, read after: it must deliver its complete result), result half dropped unread and only the error half read} x shard count; for each scenario every schedule of the store workers and the caller at command granularity within the preemption bound (window = the query until both result streams are drained); oracle: result multiset = reference cartesian product, error count, store unchanged, identical across schedules. states = executions (schedules), transitions = decision points.");
     rep.assume("macro-step granularity: branching at named schedule points (worker dequeues a command; caller finished queueing; owned query between 'commands sent' and 're-added') and whenever the running task blocks");
     let shard_counts: Vec<usize> = tier.pick(vec![1, 2], vec![1, 2, 3]);
     let bound = usize::MAX / 4; // every schedule at command granularity (the spaces are small); the wall cap is the only limit
@@ -233,20 +238,22 @@ pub fn run(tier: Tier) -> Report {
     let mut vacuity: BTreeMap<String, serde_json::Value> = BTreeMap::new();
     for &shards in &shard_counts {
         for batch in batches {
-            for (only_baked, iter, prior) in [(false, false, 0u8), (true, false, 0), (false, true, 0), (true, true, 0), (false, false, 1), (false, false, 2), (false, true, 1), (false, false, 3)] {
+            for (only_baked, iter, prior) in [(false, false, 0u8), (true, false, 0), (false, true, 0), (true, true, 0), (false, false, 1), (false, false, 2), (false, true, 1), (false, false, 3), (false, false, 4)] {
                 if tier == Tier::Quick && (only_baked && (batch == "foreign2" || batch == "owned3") || iter && only_baked && batch != "foreign-stored-id") {
                     continue;
                 }
                 // an earlier query that was abandoned / half-read: two representative batches (quick), all (thorough)
-                if prior > 0 && (tier == Tier::Quick && !(batch == "foreign1" || batch == "owned2") || iter && batch != "foreign1") {
+                if prior > 0 && prior != 4 && (tier == Tier::Quick && !(batch == "foreign1" || batch == "owned2") || iter && batch != "foreign1") {
                     continue;
                 }
-                let sc = Scenario { shards, batch, only_baked, ntracks: if batch == "owned3" { 5 } else if only_baked { 6 } else { 4 }, iter, prior };
+                let sc = Scenario { shards, batch, only_baked, ntracks: if batch == "owned3" { 5 } else if only_baked { 6 } else { 4 }, iter, drop_ok: prior == 4, prior };
                 if rep.out_of_time() {
                     rep.cap_hit(&format!("wall budget reached before scenario {sc:?}"));
                     continue;
                 }
                 let (exp_ok, exp_err, stored) = expected(&sc);
+                // result half dropped unread: nothing is read from it, the error half must still be complete
+                let exp_ok = if sc.drop_ok { vec![] } else { exp_ok };
                 let (exp_prior_ok, exp_prior_err) = expected_prior(&sc);
                 let exp_store: Vec<(usize, Vec<TrackDump>)> = (0..shards).map(|k| (k, stored.iter().filter(|t| (t.id as usize) % shards == k).cloned().collect())).collect();
                 let outcomes: Mutex<BTreeMap<u64, (u64, Obs)>> = Mutex::new(BTreeMap::new());
@@ -302,7 +309,7 @@ pub fn run(tier: Tier) -> Report {
                 if stats.truncated {
                     rep.cap_hit(&format!("scenario {sc:?} truncated by the wall cap after {} schedules", stats.executions));
                 }
-                vacuity.insert(format!("{batch}/baked={only_baked}/shards={shards}/{}{}", if iter { "iter" } else { "all" }, match prior { 0 => "", 1 => "/after-abandoned-query", 2 => "/after-half-read-query", _ => "/while-an-earlier-query-is-in-flight" }), json!({"schedules":stats.executions,"max_decision_points":stats.max_points,"distinct_outcomes":n_out,"distinct_arrival_orders":arrivals.lock().unwrap().len(),"bound":"all","truncated":stats.truncated}));
+                vacuity.insert(format!("{batch}/baked={only_baked}/shards={shards}/{}{}", if iter { "iter" } else { "all" }, match prior { 0 => "", 1 => "/after-abandoned-query", 2 => "/after-half-read-query", 3 => "/while-an-earlier-query-is-in-flight", _ => "/result-half-dropped-unread" }), json!({"schedules":stats.executions,"max_decision_points":stats.max_points,"distinct_outcomes":n_out,"distinct_arrival_orders":arrivals.lock().unwrap().len(),"bound":"all","truncated":stats.truncated}));
                 if rep.want_sample(total_exec) || vacuity.len() == 3 {
                     rep.sample(json!({"scenario":scj,"expected_pairs":exp_ok.iter().map(|i| (i.0,i.1)).collect::<Vec<_>>(),"expected_errors":exp_err,"schedules":stats.executions}));
                 }
@@ -311,8 +318,8 @@ pub fn run(tier: Tier) -> Report {
     }
     // fine tier: branch at every synchronisation operation (one preemption) on the smallest scenarios
     let fine: Vec<Scenario> = tier.pick(
-        vec![Scenario { shards: 1, batch: "owned2", only_baked: false, ntracks: 4, iter: false, prior: 0 }, Scenario { shards: 2, batch: "foreign1", only_baked: false, ntracks: 4, iter: true, prior: 1 }, Scenario { shards: 2, batch: "owned2", only_baked: false, ntracks: 4, iter: false, prior: 0 }, Scenario { shards: 1, batch: "owned2", only_baked: false, ntracks: 4, iter: false, prior: 3 }, Scenario { shards: 2, batch: "owned2", only_baked: false, ntracks: 4, iter: false, prior: 3 }],
-        vec![Scenario { shards: 1, batch: "owned2", only_baked: false, ntracks: 4, iter: false, prior: 3 }, Scenario { shards: 2, batch: "owned2", only_baked: false, ntracks: 4, iter: false, prior: 3 }, Scenario { shards: 1, batch: "owned2", only_baked: false, ntracks: 4, iter: false, prior: 0 }, Scenario { shards: 2, batch: "foreign1", only_baked: false, ntracks: 4, iter: true, prior: 1 }, Scenario { shards: 2, batch: "owned2", only_baked: false, ntracks: 4, iter: true, prior: 0 }, Scenario { shards: 2, batch: "foreign2", only_baked: true, ntracks: 4, iter: false, prior: 0 }],
+        vec![Scenario { shards: 1, batch: "owned2", only_baked: false, ntracks: 4, iter: false, drop_ok: false, prior: 0 }, Scenario { shards: 2, batch: "foreign1", only_baked: false, ntracks: 4, iter: true, drop_ok: false, prior: 1 }, Scenario { shards: 2, batch: "owned2", only_baked: false, ntracks: 4, iter: false, drop_ok: false, prior: 0 }, Scenario { shards: 1, batch: "owned2", only_baked: false, ntracks: 4, iter: false, drop_ok: false, prior: 3 }, Scenario { shards: 2, batch: "owned2", only_baked: false, ntracks: 4, iter: false, drop_ok: false, prior: 3 }],
+        vec![Scenario { shards: 1, batch: "owned2", only_baked: false, ntracks: 4, iter: false, drop_ok: false, prior: 3 }, Scenario { shards: 2, batch: "owned2", only_baked: false, ntracks: 4, iter: false, drop_ok: false, prior: 3 }, Scenario { shards: 1, batch: "owned2", only_baked: false, ntracks: 4, iter: false, drop_ok: false, prior: 0 }, Scenario { shards: 2, batch: "foreign1", only_baked: false, ntracks: 4, iter: true, drop_ok: false, prior: 1 }, Scenario { shards: 2, batch: "owned2", only_baked: false, ntracks: 4, iter: true, drop_ok: false, prior: 0 }, Scenario { shards: 2, batch: "foreign2", only_baked: true, ntracks: 4, iter: false, drop_ok: false, prior: 0 }],
     );
     let fine_bound = tier.pick(2usize, 3usize);
     for sc in fine {
@@ -343,7 +350,7 @@ pub fn run(tier: Tier) -> Report {
     rep.extra("scenarios", json!(vacuity));
     rep.extra("preemption_bound_completed", json!("unbounded: every schedule at command granularity; fine tier: 2 (thorough 3) departures from the default schedule at any synchronisation operation"));
     // determinism self-check: the same schedule twice gives the same observation
-    let sc = Scenario { shards: 2, batch: "foreign2", only_baked: false, ntracks: 4, iter: false, prior: 0 };
+    let sc = Scenario { shards: 2, batch: "foreign2", only_baked: false, ntracks: 4, iter: false, drop_ok: false, prior: 0 };
     let cfg = sched::ExploreCfg { window: (1, 1), ..Default::default() };
     let f = std::sync::Arc::new(move || run_scenario(&sc));
     let mut replays = 0;
@@ -379,7 +386,7 @@ pub fn replay(file: &serde_json::Value) -> i32 {
         "owned2" => "owned2",
         _ => "owned3",
     };
-    let scen = Scenario { shards: sc["shards"].as_u64().unwrap_or(1) as usize, batch, only_baked: sc["only_baked"].as_bool().unwrap_or(false), ntracks: sc["tracks"].as_u64().unwrap_or(4) as usize, iter: sc["consumed_through"].as_str() == Some("into_iter()"), prior: sc["earlier_query"].as_u64().unwrap_or(0) as u8 };
+    let scen = Scenario { shards: sc["shards"].as_u64().unwrap_or(1) as usize, batch, only_baked: sc["only_baked"].as_bool().unwrap_or(false), ntracks: sc["tracks"].as_u64().unwrap_or(4) as usize, iter: sc["consumed_through"].as_str() == Some("into_iter()"), drop_ok: sc["earlier_query"].as_u64() == Some(4), prior: sc["earlier_query"].as_u64().unwrap_or(0) as u8 };
     let fine = sc["granularity"].is_string();
     let choices: Vec<usize> = r["schedule"]["choices"].as_array().map(|a| a.iter().map(|x| x.as_u64().unwrap_or(0) as usize).collect()).unwrap_or_default();
     let (exp_ok, exp_err, _) = expected(&scen);
